@@ -300,6 +300,64 @@ fn grid(f: &Forest, rep: &mut Report) {
     for r in results {
         rep.merge(r);
     }
+    // servers that have been through a reorganisation: they stored a branch first (its blocks are
+    // the first ones stored at their heights) and then adopted the whole trunk; every requester,
+    // in particular those still on the abandoned branch, against such a server
+    let fps: Vec<usize> = (1..n).filter(|&q| !f.branch[q].is_empty()).collect();
+    let mut servers: Vec<(usize, usize)> = vec![];
+    for &q in fps.iter() {
+        for b in [1usize, 5, 10, 15, 20, 30, 45] {
+            if q + b + 1 < n && b <= f.branch[q].len() {
+                servers.push((q, b));
+            }
+        }
+    }
+    let results = par_map(&servers, workers(), |_, &(q, b)| {
+        let mut r = rep.child();
+        let pre: Vec<&Vec<u8>> = f.trunk[..q].iter().collect();
+        let mut node = match load(&pre) {
+            Ok(n) => n,
+            Err(e) => {
+                r.machinery(e);
+                return r;
+            }
+        };
+        for blk in f.branch[q][..b].iter().chain(f.trunk[q..].iter()) {
+            if !node.add_block_bytes(blk).is_done() {
+                r.machinery(format!("reorged server q={} b={}: delivery aborted", q, b));
+                return r;
+            }
+        }
+        if node.tip().1 != f.trunk_hash[n - 1] {
+            r.machinery(format!("reorged server q={} b={}: did not adopt the trunk (tip {})", q, b, node.tip().0));
+            return r;
+        }
+        r.outcome("grid:server-after-reorganisation");
+        let bc = node.blockchain.try_read().unwrap();
+        for rq in reqs.iter() {
+            r.evaluations += 1;
+            let est = bc.generate_last_shared_ancestor(rq.latest, rq.fork_id);
+            let truth = f.common((rq.p, rq.a), (n, 0));
+            if est <= truth {
+                r.outcome(if rq.p == q && rq.a > 0 { "grid:reorged-server:requester-on-the-abandoned-branch:ok" } else { "grid:reorged-server:ok" });
+                continue;
+            }
+            // a two-byte collision with a trunk block is the known weakness of the fork id; here
+            // only estimates that point into the abandoned branch's heights with the requester on
+            // that branch are attributed to the reorganisation
+            let on_abandoned = rq.p == q && rq.a > 0 && est as usize > q && est as usize <= q + b;
+            let case = json!({"requester": {"fork_after": rq.p, "branch_len": rq.a, "latest": rq.latest}, "server": {"stored_first": {"fork_after": q, "branch_len": b}, "then_adopted": "trunk", "latest": n}, "estimate": est, "true_fork_point": truth});
+            if on_abandoned && f.hash_at(q, b, est) == f.hash_at(rq.p, rq.a, est) {
+                r.violate(&format!("estimate-too-late/server-matched-a-block-of-its-abandoned-branch/requester-length-{}", rq.latest), format!("estimate {} > true fork point {}: block {} of the branch the server abandoned (stored first at that height) matched the requester's fork id", est, truth, est), case);
+            } else {
+                r.violate_inst(&format!("estimate-too-late/two-byte-collision/reorged-server/estimate-{}", est), &format!("reorged|{}|{}|{}|{}|{}", q, b, rq.p, rq.a, est), format!("estimate {} > true fork point {} on a server that reorganised (requester ({},{}))", est, truth, rq.p, rq.a), case);
+            }
+        }
+        r
+    });
+    for r in results {
+        rep.merge(r);
+    }
 }
 
 // ------------------------------------------------------------------------------------------
